@@ -392,6 +392,25 @@ func nonFinite(args []string) bool {
 	return false
 }
 
+// balloonIn: does the input contain the listed JSET balloon (a JSET with a
+// numeric path component >= 1000000)? Byte-level inputs are decoded loosely.
+func balloonIn(in *fuzzInput) bool {
+	if in.Args != nil {
+		return wire.JSETBalloon(in.Args)
+	}
+	for _, c := range wire.SplitCommands(in.Raw) {
+		if len(c) < 4 || !strings.EqualFold(c[0], "JSET") {
+			continue
+		}
+		for i := 3; i < len(c); i++ {
+			if wire.JSETBalloon([]string{"JSET", "k", "i", c[i]}) {
+				return true
+			}
+		}
+	}
+	return false
+}
+
 func (q *quarantine) skip(in *fuzzInput) bool {
 	q.mu.Lock()
 	defer q.mu.Unlock()
@@ -399,6 +418,9 @@ func (q *quarantine) skip(in *fuzzInput) bool {
 		return true
 	}
 	if in.Args != nil && len(q.words) > 0 && q.words[wire.CommandWord(in.Args)] && nonFinite(in.Args) {
+		return true
+	}
+	if q.words["JSET"] && balloonIn(in) {
 		return true
 	}
 	return false
@@ -413,8 +435,8 @@ func (ck *checker) partB() {
 
 	// the deterministic batch list
 	batchSize := 250
-	nGrammar := ctx.Pick(14000, 700000)
-	nBytes := ctx.Pick(5000, 250000)
+	nGrammar := ctx.Pick(14000, 400000)
+	nBytes := ctx.Pick(5000, 150000)
 	type batch struct {
 		idx    int
 		kind   string
@@ -668,6 +690,9 @@ func (ck *checker) runBatch(bidx int, inputs []*fuzzInput, rng *rand.Rand, logf 
 			ctx.Count("fuzz_inputs:"+in.Gen, 1)
 			ctx.Count("fuzz_transport:"+in.Proto.String(), 1)
 			ctx.Count("fuzz_replies", int64(nrep))
+			if nrep > 0 && n%997 == 1 {
+				ctx.Sample(map[string]any{"fuzz_input": replayOf([]*fuzzInput{in})[0], "replies": nrep, "first_reply_class": class})
+			}
 			if nrep > 0 {
 				ctx.Distinct("fuzz|" + in.Gen + "|" + in.Tmpl + "|" + mutOps(in.Muts) + "|" + in.Proto.String() + "|" + class)
 			}
@@ -689,7 +714,15 @@ func (ck *checker) runBatch(bidx int, inputs []*fuzzInput, rng *rand.Rand, logf 
 				fs = ck.newSession(rng, true)
 				continue
 			case byTimeout:
-				// wedge? the canary decides between server and machine
+				// wedge? the canary decides between server and machine, and the wedge must
+				// show again when the recent inputs are replayed on a fresh server
+				if can.answers() && !ck.confirmWedge(recent, rng, can) {
+					ctx.Count("wedge_not_reproduced", 1)
+					fs.s.Kill9()
+					fs.close()
+					fs = ck.newSession(rng, true)
+					continue
+				}
 				if can.answers() {
 					fs.s.Abort()
 					dumpb, _ := os.ReadFile(fs.s.Stderr)
@@ -697,6 +730,13 @@ func (ck *checker) runBatch(bidx int, inputs []*fuzzInput, rng *rand.Rand, logf 
 					word := "handler:" + handler
 					if in.Args != nil {
 						word = wire.CommandWord(in.Args)
+					}
+					// the listed JSET balloon has exactly the key wedge:JSET; any other JSET wedge must not share it
+					balloon := balloonIn(in)
+					if balloon && (in.Args != nil || handler == "JSET") {
+						word = "JSET"
+					} else if word == "JSET" {
+						word = "JSET+other"
 					}
 					ck.report("wedge:"+word, fmt.Sprintf("the bystander's write %q was not answered within %v after input %s %q (canary process answered a write within 1 s): a request never returns while holding the server lock", fs.by.last, ioTimeout, in.Gen, abbreviate([][]string{in.Args})),
 						map[string]any{"recent_inputs": replayOf(recent), "handler": handler, "goroutines_in_handlers": stacks})
@@ -717,6 +757,13 @@ func (ck *checker) runBatch(bidx int, inputs []*fuzzInput, rng *rand.Rand, logf 
 			if fs.s.WaitExit(3 * time.Second) {
 				_, site := fs.s.Crashed()
 				key := crashKey(site)
+				if strings.Contains(site, "cmdJset") && (strings.Contains(site, "out of memory") || strings.Contains(site, "cannot allocate")) && balloonIn(in) {
+					// the listed JSET balloon, ended by the address-space limit of the child instead of the wedge watchdog
+					key = "wedge:JSET"
+					q.mu.Lock()
+					q.words["JSET"] = true
+					q.mu.Unlock()
+				}
 				ctx.Count("crashes", 1)
 				ctx.Count("crashes_by_site:"+key, 1)
 				ck.report(key, fmt.Sprintf("server process died after %s input (template %s, %s) %q: %s", in.Gen, in.Tmpl, in.Muts, abbreviate([][]string{in.Args}), site),
@@ -748,6 +795,18 @@ func (ck *checker) runBatch(bidx int, inputs []*fuzzInput, rng *rand.Rand, logf 
 	if len(looseIn) > 0 {
 		runList(looseIn, false)
 	}
+}
+
+// confirmWedge replays the recent inputs on a fresh server and reports whether a
+// bystander write is again unanswered for 10 s while the canary answers.
+func (ck *checker) confirmWedge(recent []*fuzzInput, rng *rand.Rand, can *canary) bool {
+	fs := ck.newSession(rng, true)
+	defer func() { fs.s.Kill9(); fs.close() }()
+	for _, in := range recent {
+		ck.sendInput(fs.s.Addr(), in)
+	}
+	st, _ := fs.by.step(false, true)
+	return st == byTimeout && can.answers()
 }
 
 func clipTail(s string, n int) string {
